@@ -432,6 +432,15 @@ type Opts struct {
 	// PreDl: SetCloseDeadline calls the application makes before Serve starts, one digit per
 	// call (see Prog.DlSeq)
 	PreDl string
+	// WS: the session uses the WebSocket subprotocol (its context carried the marker the
+	// websocket package's negotiator adds): the stream reader treats framing-namespace elements
+	// as the peer's close / a restart
+	WS bool
+	// PreBroken: before Serve starts the application makes a Send call that is abandoned inside
+	// an element (its token reader fails after the start tag): the output is left broken
+	PreBroken bool
+	// Watchdog: how long Serve may take before the case is a stall (0 = 10 s); not part of Enc
+	Watchdog time.Duration
 }
 
 // Enc renders the options for the replay lines ("-" = defaults).
@@ -448,6 +457,12 @@ func (o Opts) Enc() string {
 	}
 	if o.PreDl != "" {
 		f = append(f, "predl="+o.PreDl)
+	}
+	if o.WS {
+		f = append(f, "ws")
+	}
+	if o.PreBroken {
+		f = append(f, "prebroken")
 	}
 	return common.Join(f, ",")
 }
@@ -470,6 +485,10 @@ func DecOpts(s string) Opts {
 			}
 		case p[0] == "failonce":
 			o.FailOnce = true
+		case p[0] == "ws":
+			o.WS = true
+		case p[0] == "prebroken":
+			o.PreBroken = true
 		case p[0] == "predl" && len(p) == 2:
 			o.PreDl = p[1]
 		case p[0] == "failafter" && len(p) == 2:
@@ -477,6 +496,44 @@ func DecOpts(s string) Opts {
 		}
 	}
 	return o
+}
+
+// abandonReader yields one start tag and then fails: a Send call with it stops inside the element.
+type abandonReader struct {
+	start xml.StartElement
+	done  bool
+}
+
+func (a *abandonReader) Token() (xml.Token, error) {
+	if a.done {
+		return nil, errors.New("verif: the payload reader failed")
+	}
+	a.done = true
+	return a.start, nil
+}
+
+// NsFieldWS is the protocol field for the namespace of a session with the WebSocket flag ws.
+func NsFieldWS(ns string, ws bool) string {
+	if ws {
+		return NsField(ns) + "w"
+	}
+	return NsField(ns)
+}
+
+// MarkWS rewrites the namespace field of a protocol line (the first field that is exactly `c`
+// or `s`) for a session that uses the WebSocket subprotocol.
+func MarkWS(line string, ws bool) string {
+	if !ws {
+		return line
+	}
+	f := strings.Split(line, " ")
+	for i, x := range f {
+		if x == "c" || x == "s" {
+			f[i] = x + "w"
+			break
+		}
+	}
+	return strings.Join(f, " ")
 }
 
 // faultWriter passes writes through until it is armed and `left` writes have been accepted.
@@ -512,10 +569,18 @@ func ServeOpt(opt Opts, ns string, local, remote jid.JID, body []byte, progs []P
 		state |= xmpp.S2S
 	}
 	fw := &faultWriter{w: out, left: opt.FailAfter, once: opt.FailOnce}
-	s, err := xmpp.NewSession(context.Background(), remote, local, rwPair{in, fw}, state, headerNegotiatorOpt(ns, opt))
+	sctx := context.Background()
+	if opt.WS {
+		sctx = xmpp.VerifWebSocketContext(sctx)
+	}
+	s, err := xmpp.NewSession(sctx, remote, local, rwPair{in, fw}, state, headerNegotiatorOpt(ns, opt))
 	if err != nil {
 		res.Err = fmt.Errorf("verif: session setup: %w", err)
 		return res
+	}
+	if opt.PreBroken {
+		// a transmission that stops inside an element: the start tag goes out, the next read fails
+		_ = s.Send(context.Background(), &abandonReader{start: xml.StartElement{Name: xml.Name{Local: "message"}, Attr: []xml.Attr{{Name: xml.Name{Local: "id"}, Value: "abandoned"}}}})
 	}
 	res.LocalBare = s.LocalAddr().Bare().String()
 	k := 0
@@ -556,7 +621,11 @@ func ServeOpt(opt Opts, ns string, local, remote jid.JID, body []byte, progs []P
 		fw.armed = true
 		fw.mu.Unlock()
 	}
-	done := common.WithTimeout(10*time.Second, func() {
+	wd := 10 * time.Second
+	if opt.Watchdog > 0 {
+		wd = opt.Watchdog
+	}
+	done := common.WithTimeout(wd, func() {
 		res.Panic = common.Recover(func() { res.Err = s.Serve(h) })
 	})
 	if !done {
